@@ -304,7 +304,7 @@ func seenURL(raw string) (e udURL, clause, detail string) {
 	return e, "", ""
 }
 
-// udOracle: the failing clause ("" if none), a description, and the number of slots covered.
+// udOracle: the failing clause ("" if none) and a description.
 func udOracle(d *udCase, doc string) (clause, detail string) {
 	val, ok := attrValue(doc, d.attr)
 	if !ok {
@@ -339,6 +339,9 @@ func udOracle(d *udCase, doc string) (clause, detail string) {
 				return "url-query-key-decodes-back", fmt.Sprintf("%s: parameter %d is named %q, the template spells out %q", where, k+1, g.key, w.key)
 			}
 			if g.val != w.val || g.eq != w.eq {
+				if g.eq != w.eq {
+					return "url-query-value-decodes-back", fmt.Sprintf("%s: parameter %q has a value (`=`): %v, the template spells out: %v", where, g.key, g.eq, w.eq)
+				}
 				return "url-query-value-decodes-back", fmt.Sprintf("%s: parameter %q decodes to %q, the template spells out %q", where, g.key, g.val, w.val)
 			}
 		}
@@ -434,20 +437,14 @@ var udBasePaths = []string{"/q", "q", "/p/a%20b", "http://h/q", "/a,b/c", "/Q&am
 func udGenBase(r *proto.Rand, inSet bool) string {
 	if r.Intn(3) == 0 {
 		pool := []string{"/q?a=1", "/q", "/q?a=1&", "/q?", "http://h/q?a=1", "q?a", "/q?a=1&b=2", "/q?a=Q%26A", "/q?a=1&amp;b=2", "/q?a=&lt;&copy", "/q?a=1+1&", "/q?a=%"}
-		for {
-			b := pool[r.Intn(len(pool))]
-			if inSet && strings.Contains(b, "?") {
-				continue
-			}
-			return b
-		}
+		return pool[r.Intn(len(pool))]
 	}
 	for {
 		b := udBasePaths[r.Intn(len(udBasePaths))]
 		if inSet && (strings.Contains(b, ",") || b == "") {
 			continue
 		}
-		if !inSet {
+		{
 			for n := r.Intn(3); n > 0; n-- {
 				sep := "&"
 				if !strings.Contains(b, "?") {
@@ -574,9 +571,22 @@ func (d *udCase) valid() bool {
 		if c.hasBase && d.isSet() && (c.base == "" || strings.ContainsAny(c.base, ", \t\n\f\r")) {
 			return false
 		}
-		// finding url-srcset-stale-flags: a value that brings the `?` inside a srcset
-		if d.isSet() && c.hasBase && strings.Contains(c.base, "?") {
-			return false
+		// finding url-srcset-stale-flags: in a srcset a value that brings the `?` when the static
+		// text right after it is the one with the comma that ends its candidate (no other value
+		// of that URL in between): that text does not reset the flags the value has set
+		if d.isSet() && c.hasBase && strings.Contains(c.base, "?") && i < len(d.cands)-1 {
+			slotAfter := false
+			for _, p := range c.params {
+				for _, x := range append(append(udComp{}, p.key...), p.val...) {
+					slotAfter = slotAfter || x.slot
+				}
+			}
+			for _, x := range c.frag {
+				slotAfter = slotAfter || c.hasFrag && x.slot
+			}
+			if !slotAfter {
+				return false
+			}
 		}
 		// the base role: nothing of it may start the fragment
 		if c.hasBase && strings.Contains(c.base, "#") {
@@ -600,6 +610,10 @@ func (d *udCase) valid() bool {
 		// finding url-lone-question-mark-text: after a base that brought the `?` (and does not end
 		// with `&` or `?`) a literal that is just `?` is dropped without the `&amp;` that replaces it
 		if udLoneQuestionMark(c) {
+			return false
+		}
+		// finding url-value-ends-with-second-question-mark
+		if c.hasBase && endsWithSecondQuestionMark(c.base) && len(c.params) > 0 && c.params[0].delim == "?" {
 			return false
 		}
 		for _, p := range c.params {
